@@ -94,6 +94,12 @@ def _one(item):
     kinds = ["geom-jitter", "log-uniform", "loglin"] if is_log else ["geom-jitter", "lin-uniform", "loglin", "log-uniform"]
     kind = kinds[int(rng.integers(len(kinds)))]
     xs = _grid(rng, kind, n, xmin, xmax)
+    if not is_log and rng.random() < 0.1:
+        # a linear grid may start exactly at x = 0 (the repository's own tests use XGrid([0, 1], log=False));
+        # the node x = 0 is among the evaluation points
+        xs = xs.copy()
+        xs[0] = 0.0
+        kind += "+zero-start"
     mode = "log" if is_log else "lin"
     rec = dict(
         idx=idx, mode=mode, n=n, d=d, kind=kind, xmin=xmin, xmax=xmax,
